@@ -12,6 +12,7 @@ import LW.Model.Misc
 import LW.Model.Frag
 import LW.Generated.LeapTable
 import LW.Generated.EirpTable
+import LW.Driver.AppOps
 namespace LW.Driver
 open LW LW.Canon
 
@@ -170,6 +171,6 @@ def runOp (st : DState) (op : String) (args : List String) : DState × String :=
           | .acceptedFOptsErr => "accepted fopts-ERR" | .acceptedFrmErr => "accepted frm-ERR"
           | .accepted f => "accepted " ++ fmtFrame f)
       | .err => "ERR" | .panic => "PANIC")
-  | _ => (st, badop ("unknown " ++ op))
+  | _ => if AppOps.isAppOp op then (st, AppOps.appQuery E op args) else (st, badop ("unknown " ++ op))
 
 end LW.Driver
